@@ -6,6 +6,7 @@ import ast
 from sa import astutil as A
 from sa import cfg as C
 from sa import dataflow as D
+from sa import surface as S
 from sa.index import AnalysisError
 from sa.rules import c09
 
@@ -23,7 +24,7 @@ EXPLANATION = (
     'operands in evaluation order; (e) selectors only select; (f) composite '
     'operations accumulate into a fresh list.  Validity of produced DNAs over '
     'all spaces is not decided.')
-FLOORS = {'C14.a': 2, 'C14.b': 1, 'C14.c': 6, 'C14.d': 6, 'C14.e': 3, 'C14.f': 2}
+FLOORS = {'C14.a': 2, 'C14.b': 1, 'C14.c': 6, 'C14.d': 6, 'C14.e': 3, 'C14.f': 2, 'C14.g': 4}
 FILES = ['pyglove/ext/evolution/base.py', 'pyglove/ext/evolution/mutators.py',
          'pyglove/ext/evolution/recombinators.py', 'pyglove/ext/evolution/selectors.py',
          'pyglove/ext/evolution/where.py', 'pyglove/ext/evolution/nsga2.py']
@@ -366,6 +367,57 @@ def rule_f(ctx):
     raise AnalysisError(f'only {n} accumulating calls found in composite operations')
 
 
+PAIR_EXEMPT = {
+    E + 'mutators.Swap.mutate': 'exchanging two positions keeps the multiset of values: distinctness cannot be '
+                                'violated, only sortedness',
+}
+
+
+def rule_g(ctx):
+  """(1) Cross-position constraints of a multi-choice come as a pair: an
+  operator function that branches on `distinct` or on `sorted` of a decision
+  point consults the other one too (treating a sorted-but-not-distinct group
+  as independent positions produces unsorted offspring).
+  (2) A selector never slices with a negated computed count: `inputs[-n:]`
+  selects everything when n == 0."""
+  idx = ctx.index
+  n = 0
+  for rel in ('pyglove/ext/evolution/mutators.py', 'pyglove/ext/evolution/recombinators.py'):
+    m = idx.by_relpath[rel]
+    for f in m.funcs.values():
+      if '<locals>' in f.qualname:
+        continue
+      if '.' not in f.qualname and f.name.startswith('_'):
+        continue   # private module-level predicate: judged through the closure of its callers
+      reads = {x.attr for h in S.helper_closure(idx, f) for x in ast.walk(h.node) if isinstance(x, ast.Attribute)
+               and x.attr in ('distinct', 'sorted') and not (isinstance(x.value, ast.Name) and x.value.id == 'self')}
+      if not reads:
+        continue
+      n += 1
+      if f.fq in PAIR_EXEMPT:
+        ctx.ob('C14.g', f.fq, True, 'exempt: ' + PAIR_EXEMPT[f.fq], f.loc)
+        continue
+      ctx.ob('C14.g', f.fq, reads == {'distinct', 'sorted'},
+             'an operator that consults one cross-position constraint of a multi-choice (distinct / sorted) consults both',
+             f.loc, f'only `{sorted(reads)[0]}` is consulted: a multi-choice with only the other constraint is treated '
+             f'as unconstrained positions and the offspring violates it')
+  if n < 3:
+    raise AnalysisError(f'only {n} operator functions consult distinct/sorted')
+  for c in idx.all_classes():
+    if not c.module.name.startswith(E) or 'select' not in c.methods:
+      continue
+    f = c.methods['select']
+    bad = []
+    for x in ast.walk(f.node):
+      if isinstance(x, ast.Subscript) and isinstance(x.slice, ast.Slice):
+        for b_ in (x.slice.lower, x.slice.upper):
+          if isinstance(b_, ast.UnaryOp) and isinstance(b_.op, ast.USub) and not isinstance(b_.operand, ast.Constant):
+            bad.append(A.unparse(x, 60))
+    ctx.ob('C14.g', f.fq + '#slice', not bad,
+           'a selector does not slice with a negated computed count', f.loc,
+           f'`{", ".join(bad)}`: when the count is 0 the slice [-0:] is the whole input, not the empty list')
+
+
 def run(ctx):
   ctx.consult(*FILES)
   rule_a(ctx)
@@ -374,4 +426,5 @@ def run(ctx):
   rule_d(ctx)
   rule_e(ctx)
   rule_f(ctx)
+  rule_g(ctx)
   ctx.assume('validity of produced DNAs and the number a selector returns are not decided')
